@@ -393,6 +393,12 @@ def check_r18e(repo, rep, uni):
             if not (isinstance(call.func, ast.Attribute) and
                     call.func.attr == 'evaluate'):
                 continue
+            if fi.cls is not None and fi.params() and isinstance(
+                    call.func.value, ast.Name) and \
+                    call.func.value.id == fi.params()[0] and \
+                    'evaluate' in fi.cls.methods and \
+                    fi.cls.node.name != 'Statement':
+                continue     # a method of the same name on another class
             ctx = None
             for k in call.keywords:
                 if k.arg == 'context':
